@@ -573,6 +573,7 @@ pub proof fn lemma_update_user_tail_layout(u: Option<Text>, s: Option<UserStatus
         assert(t.subrange(2, 2 + n@.len() as int) =~= n@);
     }
 }
+#[verifier::spinoff_prover]
 pub proof fn lemma_update_user_layout(v: UpdateUser)
     requires v.username matches Some(t) ==> t@.len() <= 255,
     ensures
@@ -589,19 +590,28 @@ pub proof fn lemma_update_user_layout(v: UpdateUser)
             &&& (v.status matches Some(st) ==> b[q] == 1 && b[q + 1] == status_code(st))
         }),
 {
+    // (only the facts the two layout lemmas state about the opaque tail `t` are needed)
+    hide(opt_name8); hide(opt_status); hide(enc_ids1); hide(enc_identifier); hide(enc_name8);
     let b = enc_update_user(v);
     let p = 2 + v.user_id.value@.len() as int;
     let t = opt_name8(v.username) + opt_status(v.status);
     let q = opt_name8_len(v.username);
     lemma_ids1_layout(v.user_id, t);
     lemma_update_user_tail_layout(v.username, v.status);
+    assert(b.subrange(p, b.len() as int) == t);
     lemma_tail_at(b, p, t, 0, 1);
     lemma_tail_at(b, p, t, q, q + 1);
-    if let Some(n) = v.username {
-        lemma_tail_at(b, p, t, 1, 2);
-        lemma_tail_at(b, p, t, 2, 2 + n@.len() as int);
+    match v.username {
+        Some(n) => {
+            lemma_tail_at(b, p, t, 1, 2);
+            lemma_tail_at(b, p, t, 2, 2 + n@.len() as int);
+        },
+        None => {},
     }
-    if v.status is Some { lemma_tail_at(b, p, t, q + 1, q + 2); }
+    match v.status {
+        Some(st) => { lemma_tail_at(b, p, t, q + 1, q + 2); },
+        None => {},
+    }
 }
 pub proof fn lemma_status_code_injective()
     ensures forall|a: UserStatus, b: UserStatus| status_code(a) == status_code(b) ==> a == b,
@@ -888,4 +898,116 @@ pub proof fn lemma_cu_frame_injective(u: Seq<u8>, pw: Seq<u8>, st: UserStatus, p
     assert(t.subrange(1, t.len() as int) =~= opt_pb(pb));
     assert(t2.subrange(1, t2.len() as int) =~= opt_pb(pb2));
     lemma_opt_pb_injective(pb, pb2);
+}
+
+// ---- FlushUnsavedBuffer:  stream Identifier | topic Identifier | partition_id:u32 | fsync:u8 (1 = true) -------------------------------
+pub open spec fn flush_tail(pid: u32, fsync: bool) -> Seq<u8> { le32(pid) + seq![bool_wire(fsync)] }
+pub open spec fn enc_flush(m: FlushUnsavedBuffer) -> Seq<u8> { enc_ids2(m.stream_id, m.topic_id, flush_tail(m.partition_id, m.fsync)) }
+pub open spec fn flush_valid(m: FlushUnsavedBuffer) -> bool { id_valid(m.stream_id) && id_valid(m.topic_id) }
+pub open spec fn flush_eq(a: FlushUnsavedBuffer, b: FlushUnsavedBuffer) -> bool {
+    id_eq(a.stream_id, b.stream_id) && id_eq(a.topic_id, b.topic_id) && a.partition_id == b.partition_id && a.fsync == b.fsync
+}
+pub proof fn lemma_flush_layout(v: FlushUnsavedBuffer)
+    ensures
+        ({
+            let f = enc_flush(v);
+            let p1 = 2 + v.stream_id.value@.len() as int;
+            let p2 = p1 + 2 + v.topic_id.value@.len() as int;
+            &&& f.len() == p2 + 5
+            &&& f == enc_identifier(v.stream_id) + (enc_identifier(v.topic_id) + flush_tail(v.partition_id, v.fsync))
+            &&& f[1] == v.stream_id.length
+            &&& f.subrange(p1, f.len() as int) == enc_identifier(v.topic_id) + flush_tail(v.partition_id, v.fsync)
+            &&& f[p1 + 1] == v.topic_id.length
+            &&& f.subrange(p2, p2 + 4) == le32(v.partition_id)
+            &&& f[p2 + 4] == bool_wire(v.fsync)
+        }),
+{
+    lemma_le_facts();
+    let f = enc_flush(v);
+    let p1 = 2 + v.stream_id.value@.len() as int;
+    let p2 = p1 + 2 + v.topic_id.value@.len() as int;
+    let t = flush_tail(v.partition_id, v.fsync);
+    lemma_ids2_layout(v.stream_id, v.topic_id, t);
+    assert(t.subrange(0, 4) =~= le32(v.partition_id));
+    lemma_tail_at(f, p2, t, 0, 4);
+    lemma_tail_at(f, p2, t, 4, 5);
+}
+pub proof fn lemma_flush_injective(a: FlushUnsavedBuffer, b: FlushUnsavedBuffer)
+    requires flush_valid(a), flush_valid(b), enc_flush(a) == enc_flush(b),
+    ensures flush_eq(a, b),
+{
+    lemma_le_facts();
+    let ta = flush_tail(a.partition_id, a.fsync);
+    let tb = flush_tail(b.partition_id, b.fsync);
+    lemma_ids2_prefix_free(a.stream_id, a.topic_id, ta, b.stream_id, b.topic_id, tb);
+    assert(ta.subrange(0, 4) =~= le32(a.partition_id));
+    assert(tb.subrange(0, 4) =~= le32(b.partition_id));
+    assert(un_le32(le32(a.partition_id)) == un_le32(le32(b.partition_id)));
+    assert(ta[4] == tb[4]);
+}
+pub proof fn lemma_flush_eq_enc(a: FlushUnsavedBuffer, b: FlushUnsavedBuffer)
+    requires flush_eq(a, b),
+    ensures enc_flush(a) == enc_flush(b), flush_valid(a) == flush_valid(b),
+{}
+
+// ---- Message (one message inside SendMessages):  id:u128 | headers_length:u32 | headers | payload_length:u32 | payload --------------------
+// (headers_length 0 = no headers; the payload must not be empty; id 0 = "let the server generate one")
+pub open spec fn enc_msg(id: u128, hb: Seq<u8>, length: u32, payload: Seq<u8>) -> Seq<u8> {
+    le128(id) + le32(hb.len() as u32) + hb + le32(length) + payload
+}
+pub open spec fn msg_parts_valid(a: HdrAbs, hb: Seq<u8>, length: u32, payload: Seq<u8>) -> bool {
+    hb.len() <= u32::MAX && hdr_enc_ok(a, hb) && length == payload.len() && 1 <= payload.len() <= u32::MAX
+}
+// the content of an optional header map (an absent map has the content of the empty map)
+pub open spec fn hdr_content(h: Option<Headers>) -> HdrAbs { match h { None => hdr_none(), Some(x) => hdr_view(x) } }
+pub open spec fn opt_hdr_bytes(h: Option<Headers>) -> Seq<u8> { match h { None => Seq::<u8>::empty(), Some(x) => hdr_bytes(x) } }
+// b = (one message) + rest
+pub proof fn lemma_msg_layout(id: u128, hb: Seq<u8>, length: u32, payload: Seq<u8>, rest: Seq<u8>)
+    requires hb.len() <= u32::MAX,
+    ensures
+        ({
+            let b = enc_msg(id, hb, length, payload) + rest;
+            let h = hb.len() as int;
+            &&& b.len() == 24 + h + payload.len() + rest.len()
+            &&& b.subrange(0, 16) == le128(id)
+            &&& b.subrange(16, 20) == le32(hb.len() as u32)
+            &&& b.subrange(20, 20 + h) == hb
+            &&& b.subrange(20 + h, 24 + h) == le32(length)
+            &&& b.subrange(24 + h, 24 + h + payload.len() as int) == payload
+            &&& b.subrange(24 + h + payload.len() as int, b.len() as int) == rest
+        }),
+{
+    lemma_le_facts();
+    lemma_le128_facts();
+    let b = enc_msg(id, hb, length, payload) + rest;
+    let h = hb.len() as int;
+    assert(b.subrange(0, 16) =~= le128(id));
+    assert(b.subrange(16, 20) =~= le32(hb.len() as u32));
+    assert(b.subrange(20, 20 + h) =~= hb);
+    assert(b.subrange(20 + h, 24 + h) =~= le32(length));
+    assert(b.subrange(24 + h, 24 + h + payload.len() as int) =~= payload);
+    assert(b.subrange(24 + h + payload.len() as int, b.len() as int) =~= rest);
+}
+// two messages whose payload lengths are what their length fields say and that start the same buffer are equal, and so are the rests
+pub proof fn lemma_msg_prefix_free(id: u128, hb: Seq<u8>, length: u32, payload: Seq<u8>, rest: Seq<u8>, id2: u128, hb2: Seq<u8>, length2: u32, payload2: Seq<u8>, rest_2: Seq<u8>)
+    requires
+        hb.len() <= u32::MAX, hb2.len() <= u32::MAX, length == payload.len(), length2 == payload2.len(),
+        enc_msg(id, hb, length, payload) + rest == enc_msg(id2, hb2, length2, payload2) + rest_2,
+    ensures id == id2, hb == hb2, length == length2, payload == payload2, rest == rest_2,
+{
+    lemma_le_facts();
+    lemma_le128_facts();
+    lemma_msg_layout(id, hb, length, payload, rest);
+    lemma_msg_layout(id2, hb2, length2, payload2, rest_2);
+    assert(un_le128(le128(id)) == un_le128(le128(id2)));
+    assert(un_le32(le32(hb.len() as u32)) == un_le32(le32(hb2.len() as u32)));
+    assert(un_le32(le32(length)) == un_le32(le32(length2)));
+}
+// Message::get_size_bytes (Sizeable; iterates the header map): NOT extracted. In this unit it only feeds `BytesMut::with_capacity` of
+// Message::to_bytes. Assumed: it returns (no arithmetic overflow) a size an allocation can have.
+impl Message {
+    #[verifier::external_body]
+    pub fn get_size_bytes(&self) -> (r: IggyByteSize)
+        ensures r.0 <= isize::MAX,
+    { unimplemented!() }
 }
